@@ -780,7 +780,7 @@ type mfrag struct {
 }
 
 type tokCase struct {
-	Want   *string  `json:"want"` // text cases: the formatted text a model predicts (drift only)
+	Want   *string  `json:"want"`  // text cases: the formatted text a model predicts (drift only)
 	Shift  bool     `json:"shift"` // the token sequence is placed after two other lines (positions that are not on the first lines)
 	Toks   []string `json:"toks"`
 	FF     bool     `json:"ff"`
